@@ -326,7 +326,16 @@ class Engine:
             st = st.copy(); st.trace = st.trace + tuple(('flag', f) for f in isa.TERMINAL[n])
             return [Leaf(cond, 'term', n, st)]
         if n in self.labels and n not in self.ctx.cut_labels:
-            return self.run(self.labels[n], st, cond)
+            act = self.__dict__.setdefault('_active', [])
+            if act.count(n) >= getattr(self.ctx, 'max_revisits', 24):
+                # a cycle through a label that is not a declared cut point: report it as leaving through that label (the
+                # lemma's expected leaves never contain it, so it surfaces as a mismatch rather than a crash)
+                return [Leaf(cond, 'exit', n, st)]
+            act.append(n)
+            try:
+                return self.run(self.labels[n], st, cond)
+            finally:
+                act.pop()
         if n == 'halt':
             return [Leaf(cond, 'bot', None, st)]
         if n in isa.TERMINAL:
